@@ -52,10 +52,7 @@ impl TypeParams {
 
     pub fn set_type(&mut self, param: Ident, ty: TokenStream, errors: &mut Errors) {
         let ty = match syn::parse2::<Type>(ty) {
-            Ok(mut ty) => {
-                self.fix_source_lifetime_implicit(&mut ty);
-                ty
-            }
+            Ok(ty) => ty,
             Err(err) => {
                 errors.err(err.to_string(), err.span());
                 return;
@@ -178,7 +175,13 @@ impl TypeParams {
 
         for (ty, replace) in self.type_params.iter() {
             match replace {
-                Some(ty) => generics.push(quote!(#ty)),
+                Some(ty) => {
+                    // Fixed here rather than in `set_type`: whether the source lifetime is implicit
+                    // is only known once all `#[logos(...)]` items have been read
+                    let mut ty = ty.clone();
+                    self.fix_source_lifetime_implicit(&mut ty);
+                    generics.push(quote!(#ty))
+                }
                 None => {
                     errors.err(
                         format!(
